@@ -183,6 +183,88 @@ def classify(methods, app, args, kws, env, exp, got):
     return None
 
 
+# ----------------------------------------------------------------------------- parametrised condition families
+
+
+def wild_cases():
+    """two parametrised families of conditions on int (docs/dependent.md 'Wildcards': within ONE family Any is more
+    general than a value); every pair of methods, with an object fallback, over a few values"""
+    import itertools
+
+    params = [None, 1, 2]  # None = typing.Any
+    types = [("A", p) for p in params] + [("B", p) for p in params]
+    out = []
+    for t1, t2 in itertools.permutations(types, 2):
+        out.append({"kind": "wild", "types": [list(t1), list(t2)], "values": [0, 1, 2, 3, 4]})
+    return out
+
+
+def run_wild(spec):
+    import typing
+
+    from ovld import Ovld, dependent_check
+
+    res = R.CaseResult()
+    asked = []
+
+    @dependent_check
+    def FamA(value: int, lo):
+        asked.append(("A", value))
+        return lo is typing.Any or value >= lo
+
+    @dependent_check
+    def FamB(value: int, n):
+        asked.append(("B", value))
+        return n is typing.Any or value % n == 0
+
+    fam = {"A": FamA, "B": FamB}
+    impl = {"A": lambda v, p: p is None or v >= p, "B": lambda v, p: p is None or v % p == 0}
+    ov = Ovld()
+    names = []
+    for i, (f, p) in enumerate(spec["types"]):
+        T = fam[f][typing.Any if p is None else p]
+        src = f"def m{i}(x: T):\n    return {i}\n"
+        glb = {"T": T}
+        exec(src, glb)
+        ov.register(glb[f"m{i}"])
+        names.append((f, p))
+    ov.register(lambda x: "fallback", priority=-1) if False else None
+
+    def fb(x: object):
+        return "fallback"
+
+    ov.register(fb, priority=-1)
+    res.nontrivial = spec["types"][0][0] != spec["types"][1][0]
+    res.key = R.canon(spec["types"])
+    res.label("families:" + ("different" if res.nontrivial else "same"))
+    for v in spec["values"]:
+        hold = [i for i, (f, p) in enumerate(names) if impl[f](v, p)]
+        if len(hold) == 0:
+            exp = "fallback"
+        elif len(hold) == 1:
+            exp = hold[0]
+        else:
+            (f1, p1), (f2, p2) = names
+            if f1 != f2:
+                exp = "ambiguous"  # unrelated conditions on one bound that both hold
+            elif (p1 is None) != (p2 is None):
+                exp = 0 if p2 is None else 1  # the wildcard is the more general one
+            elif p1 == p2:
+                exp = 1  # the same type written twice: the later registration replaces the earlier one
+            else:
+                exp = "ambiguous"
+        try:
+            got = ov(v)
+        except TypeError as e:
+            got = "ambiguous" if "mbiguous" in str(e) else f"TypeError: {e}"
+        except Exception as e:  # noqa: BLE001
+            got = f"{type(e).__name__}: {e}"
+        if got != exp:
+            res.fail(f"methods {names} (+ object fallback), value {v}: expected {exp}, got {got}",
+                     "C10:wildcard-order-across-families" if names[0][0] != names[1][0] else None)
+    return res
+
+
 class Check:
     id = "C10"
     level = "exploration"
@@ -192,7 +274,8 @@ class Check:
         "Expected outcome from the reference model (condition-filtered applicability + documented order); "
         "unspecified comparisons are skipped and counted, with weaker facts still asserted; predicates log what "
         "they are asked. Non-trivial = some dependent method holds for one probed call and not for another, and the "
-        "set has a purely static method; distinct by case hash."
+        "set has a purely static method; distinct by case hash. Plus every ordered pair of methods from two "
+        "parametrised condition families (Any wildcard / values) with an object fallback, over 5 values."
     )
     assumptions = [
         "dependent vs static combinators and dependents on different comparable bounds are unspecified (skipped)",
@@ -201,15 +284,18 @@ class Check:
 
     def tasks(self, tier, seed):
         per = 300 if tier == "quick" else 9000
-        return [{"kind": "rand", "seed": seed * 1000 + i, "n": per} for i in range(16)]
+        return [{"kind": "rand", "seed": seed * 1000 + i, "n": per} for i in range(16)] + [{"kind": "wild"}]
 
     def run_task(self, task):
         st = R.Stats()
+        if task["kind"] == "wild":
+            R.run_enumerated(st, wild_cases(), run_wild, R.open_signatures(self.id))
+            return st
         R.run_given(st, case_strategy(), run_case, task["seed"], task["n"], R.open_signatures(self.id))
         return st
 
     def run_case(self, spec):
-        return run_case(spec)
+        return run_wild(spec) if spec.get("kind") == "wild" else run_case(spec)
 
 
 CHECK = Check()
